@@ -88,6 +88,37 @@ fn main() {
                 std::process::exit(code);
             }
         }
+        "replay-bytes" => {
+            // vcheck replay-bytes <target> <file>: classify a libFuzzer artefact (strict)
+            let target = args.get(1).cloned().unwrap_or_else(|| usage());
+            let file = args.get(2).cloned().unwrap_or_else(|| usage());
+            let prop = vcheck::props::fuzz_target_property(&target).unwrap_or("?");
+            let data = std::fs::read(&file).unwrap_or_else(|e| {
+                eprintln!("cannot read {}: {}", file, e);
+                std::process::exit(2)
+            });
+            vcheck::engine::panics::install_hook();
+            match vcheck::props::fuzz_eval(&target, &data) {
+                None => {
+                    println!("replay-bytes: input not decodable for target {} (passes trivially)", target);
+                }
+                Some(Ok(())) => println!("replay-bytes: case passes"),
+                Some(Err(f)) => {
+                    let known = vcheck::engine::known::known_for(prop);
+                    if known.contains_key(&f.sig) {
+                        println!("replay-bytes: known finding {}", f.sig);
+                    } else if f.sig.starts_with("harness-panic:") {
+                        println!("HARNESS-ERROR: {} {}", f.sig, f.msg);
+                        std::process::exit(2);
+                    } else {
+                        println!("VIOLATION property={} replay={}", prop, file);
+                        println!("  sig: {}", f.sig);
+                        println!("  msg: {}", f.msg);
+                        std::process::exit(1);
+                    }
+                }
+            }
+        }
         "replay" => {
             let f = args.get(1).cloned().unwrap_or_else(|| usage());
             std::process::exit(parent::replay(&PathBuf::from(f)));
